@@ -71,6 +71,11 @@ pub fn run(a: &Args, prop: &str) -> i32 {
                 } else {
                     let mut cs = pg.corruptions(op, &payload, c.opts.other_variant);
                     rng.shuffle(&mut cs);
+                    // "a known __typename always selects its own variant": the uncorrupted payload itself, when it has
+                    // abstract positions (cases in a known-finding class of C01 are left to C01)
+                    if st.abstract_positions > 0 && c01_finding_class(&c.schema, &c.doc).is_none() {
+                        cs.insert(0, Corruption { kind: "none/known-typename", path: String::new(), payload: payload.clone(), must_accept: Some(true), expect_typename: None });
+                    }
                     for cor in cs.into_iter().take(corruptions_per_payload) {
                         let nontrivial = cor.path.matches('/').count() > 1;
                         vectors.push(Vector { case: c.id, module: mi, op: op_struct.clone(), payload: cor.payload.clone(), expected: None, corruption: Some(cor), nontrivial });
@@ -112,6 +117,7 @@ pub fn run(a: &Args, prop: &str) -> i32 {
                 let accepted = matches!(r, Reply::Ok(_));
                 match cor.must_accept {
                     Some(false) if accepted => rep.fail(&format!("corrupted-payload-accepted:{}", cor.kind), case_json(json!({"corruption": cor.kind, "at": cor.path}))),
+                    Some(true) if !accepted && cor.kind == "none/known-typename" => rep.fail("known-typename-rejected", case_json(json!({"corruption": cor.kind}))),
                     Some(true) if !accepted => rep.fail(&format!("unknown-typename-rejected-with-other-variant:{}", cor.kind), case_json(json!({"corruption": cor.kind, "at": cor.path}))),
                     _ => {}
                 }
